@@ -226,15 +226,23 @@ func VerifH_C22_q() {
 }
 
 // VerifH_C22_batch: 1 underlying entry, one batch (put+delete of arbitrary keys), then a final check.
-func VerifH_C22_batch() {
+func VerifH_C22_batch() { verifC22Batch(true, 1) }
+
+// VerifH_C22_batchEmpty: the batched value may be empty (an empty value is a put, not a deletion).
+func VerifH_C22_batchEmpty() { verifC22Batch(false, 0) }
+
+func verifC22Batch(withFirst bool, valMin int) {
 	h := newVF(1, 1, false)
-	if sym.Choice("first", 2) == 1 {
+	if withFirst && sym.Choice("first", 2) == 1 {
 		h.kinds = 2
 		h.write(1)
 	}
 	h.kinds = 3
 	n := vOpNames[0]
-	k, v, k2 := symkv.Key(n[1], 1), symkv.Bytes(n[2], 1, 1), symkv.Key(n[3], 1)
+	k, v, k2 := symkv.Key(n[1], 1), symkv.Bytes(n[2], valMin, 1), symkv.Key(n[3], 1)
+	if len(v) == 0 {
+		sym.Reach("empty-batched-value")
+	}
 	b := h.f.NewBatch()
 	b.Put(k, v)
 	b.Delete(k2)
